@@ -36,8 +36,12 @@ def stages(tier, seed):
     ws = c01_family("W_sub", replay="C09", inv=["EmitWild"], fam="W", op='"subscription"', frags="NoFrags", leafs="W_Leafs",
                     comps="W_Comps", inlines="W_Inlines", maxsel=2, maxnodes=2, maxdepth=1, dirs="DirsNone")
     ws["trace_out"] = "MC_C01_W_sub.ndjson"
+    cyc = c01_family("W_cycles", replay="C09", inv=["EmitWild"], fam="W", frags="FragsCyc", leafs="Cyc_Leafs", comps="Cyc_Comps",
+                     spread="SpreadAny", maxsel=2, maxnodes=7 if big else 6, maxdepth=3, dirs="DirsNone")
+    cyc["trace_out"] = "MC_C01_W_cycles.ndjson"
     vals = fam("MC_C05_c09", "MC_C05", dict(constants={"ArgNames": ALL_ARGS, "Depth": 2 if big else 1}, invariants=["Emit"]))
-    for st in (toks, chars, wq, wm, ws, vals):
+    for st in (toks, chars, wq, wm, ws, cyc, vals):
+        st["fatal_is_violation"] = True
         out.append(st)
         out.append(tv(st["trace_out"][:-7]))
     return out
